@@ -53,7 +53,8 @@ CONFIGS = [(1, 0), (1, 1), (2, 1), (2, 0), (1, -1), (2, -1)]
 PROGRAMS = ["cx", "cxcx", "cxc", "c", "cxcxc"]
 # c connect, x close, f connect with a failing checkout listener (exception kept), z drop kept exceptions + gc,
 # d drop the reference to the held connection + gc (weakref-triggered check-in)
-GC_OPS = ["c", "c", "x", "x", "f", "z", "d"]
+# i invalidate() the held connection but keep the (now dead) fairy; y close() such a dead fairy again
+GC_OPS = ["c", "c", "x", "x", "f", "z", "d", "i", "y"]
 
 
 def translate(repo, outdir):
@@ -85,6 +86,9 @@ def gen_cases(rng, tier):
         ps, mo = rng.choice([(1, 0), (1, 1), (2, 0)])
         nth = rng.choice([2, 3, 3])
         progs = ["".join(rng.choice(GC_OPS) for _ in range(rng.randint(2, 5))) for _ in range(nth)]
+        if rng.random() < 0.3:
+            # directed: invalidate, let the record be re-used by a new checkout, then close the dead fairy
+            progs[0] = rng.choice(["cicyc", "cicy", "ciyc", "cixyc", "cicyxc"])
         cases.append(
             {
                 "in": [[ps, mo, rng.randint(0, 1)], nth, []],
@@ -193,6 +197,7 @@ def _run(c):
             raw.append(("qempty", w.tid))
             raise
         raw.append(("qget", w.tid, item.dbapi_connection.cid if item.dbapi_connection is not None else -1))
+        sched.yield_()
         return item
 
     def tput(item, block=True, timeout=None):
@@ -203,6 +208,7 @@ def _run(c):
             raw.append(("qfull", w.tid))
             raise
         raw.append(("qput", w.tid))
+        sched.yield_()
 
     q.get, q.put = tget, tput
     old_time = saq._time
@@ -214,7 +220,7 @@ def _run(c):
     def monitor():
         for cid, tids in holders.items():
             if len(tids) > 1:
-                viol.append("connection %d held by threads %s at the same time" % (cid, sorted(tids)))
+                viol.append("connection %d held by %d live checkouts (threads %s) at the same time" % (cid, len(tids), sorted(t for t, _ in tids)))
         if mo >= 0 and len(ledger["open"]) > ps + mo:
             viol.append("%d connections open > pool_size+max_overflow=%d" % (len(ledger["open"]), ps + mo))
         if len(q.queue) > ps:
@@ -222,7 +228,7 @@ def _run(c):
         for rec in q.queue:
             cid = rec.dbapi_connection.cid if rec.dbapi_connection is not None else None
             if cid in holders and holders[cid]:
-                viol.append("connection %s is idle in the queue and held by %s" % (cid, sorted(holders[cid])))
+                viol.append("connection %s is idle in the queue and held by %s" % (cid, sorted(t for t, _ in holders[cid])))
 
     sched.on_step = monitor
 
@@ -242,7 +248,9 @@ def _run(c):
 
             mine = []
             kept = []
+            dead = []
             for op in prog:
+                sched.yield_()  # a thread can be preempted between two application statements
                 if op in "cf":
                     raw.append(("start", w.tid))
                     t0 = sched.clock
@@ -265,26 +273,35 @@ def _run(c):
                         if op == "f":
                             fail_next[0] = False
                     cid = f.dbapi_connection.cid
-                    holders.setdefault(cid, set()).add(w.tid)
+                    holders.setdefault(cid, set()).add((w.tid, id(f)))
                     mine.append(f)
                     live[(w.tid, id(f))] = f
                     f = None
                 elif op == "z":
                     del kept[:]
                     gc.collect()
-                elif op in "xd" and mine:
+                elif op in "xdi" and mine:
                     f = mine.pop(0)
                     cid = f.dbapi_connection.cid
                     raw.append(("release", w.tid))
-                    holders[cid].discard(w.tid)
+                    holders[cid].discard((w.tid, id(f)))
                     del live[(w.tid, id(f))]
                     if op == "x":
                         f.close()
                         f = None
+                    elif op == "i":
+                        f.invalidate()
+                        dead.append(f)  # the application still holds the dead fairy
+                        f = None
                     else:
                         f = None
                         gc.collect()
+                elif op == "y" and dead:
+                    f = dead.pop(0)
+                    f.close()  # closing a fairy that no longer owns a record must not touch the pool
+                    f = None
             del kept[:]
+            del dead[:]
             gc.collect()
 
         return fn
